@@ -102,6 +102,7 @@ type Manager struct {
 	lastPollTime   time.Time
 	nextPollTime   time.Time
 	pollTimer      *time.Timer
+	pollSeq        uint64 // incremented at the start of every poll (guarded by stateMu)
 
 	// Deterministic windows
 	localID    identity.AgentID
@@ -356,6 +357,8 @@ func (m *Manager) Poll() error {
 	// Transition to polling
 	m.state.Store(StatePolling)
 	m.lastPollTime = time.Now()
+	m.pollSeq++
+	seq := m.pollSeq
 	m.stateMu.Unlock()
 
 	m.logger.Debug("starting poll")
@@ -377,8 +380,10 @@ func (m *Manager) Poll() error {
 	m.stateMu.Lock()
 	defer m.stateMu.Unlock()
 
-	// Check if we were woken during poll
-	if m.state.Load().(State) == StateAwake {
+	// Check if we were woken during poll. A wake followed by a new sleep (and
+	// possibly a new poll) also ends this poll: only the poll that is still
+	// current may finish it.
+	if m.state.Load().(State) != StatePolling || m.pollSeq != seq {
 		return nil
 	}
 
